@@ -241,11 +241,11 @@ diff_gr(int32 gr1_id, int32 gr2_id, int32 ref1, int32 ref2, diff_opt_t *opt)
                 dims3[2] = ncomps1;
                 if (opt->max_err_cnt == MAX_DIFF)
                     max_err_cnt = nelms * (uint32)ncomps1;
-                nfound = array_diff(buf1, buf2, nelms * (uint32)ncomps1, gr1_name, gr2_name, 3, dims3, dtype1,
+                nfound = array_diff(buf1, buf2, nelms * (uint32)ncomps1, gr1_name, gr2_name, 3, dims3, numtype,
                                     opt->err_limit, opt->err_rel, max_err_cnt, opt->statistics, 0, 0);
             }
             else
-                nfound = array_diff(buf1, buf2, nelms, gr1_name, gr2_name, 2, dimsizes1, dtype1, opt->err_limit,
+                nfound = array_diff(buf1, buf2, nelms, gr1_name, gr2_name, 2, dimsizes1, numtype, opt->err_limit,
                                     opt->err_rel, max_err_cnt, opt->statistics, 0, 0);
         }
 
